@@ -245,6 +245,32 @@ def run(ctx, prog):
         r = pb.reach([0], avoid_edges=es)
         ctx.inst('C12.R4', pb.short, 'unlink only past ' + nm, bool(es) and bool(rms) and not any(x in r for x in rms),
                  'guard edges %s; unlink %s' % (es, 'reachable without the guard' if any(x in r for x in rms) else 'dominated'))
+    # survivors = keep set: every condition (other than membership in the keep set) that lets a backup survive the deletion loop must have put that
+    # backup INTO the keep set before the parent closure ran — otherwise it survives while its parent chain is pruned
+    if rms:
+        rm0 = min(rms)
+        full_preds = [(i, tg, p) for i, blk in enumerate(pb.blocks) if blk['t']['k'] == 'switch' and i in pb.live_blocks() for tg, p in flow.switch_edge_predicates(pb, i, pf)]
+        elem = r"Iterator>::next\((?:slice::iter\()?BackupManager::list_backups\(arg:self\)@Continue→Continue\.0\)?\)@Some→Some\.0"
+        must = [p for i, tg, p in full_preds if rm0 not in pb.reach([0], avoid_edges=[(i, tg)]) and re.search(elem + r'→BackupMetadata\.(?!id\b)\w+', p)
+                and 'HashSet::contains' not in p and 'Path::exists' not in p]
+        closure_src = [c for c in pb.calls if c.callee and re.search(r'HashSet<.*>::iter$|HashSet::iter$', flow.short(c.callee)) and flow.render(pv.of_operand(c.args[0], 0, frozenset({-1}))) == 'var:to_keep']
+        for k_, p in enumerate(sorted(set(must))):
+            neg = p[1:] if p.startswith('!') else '!' + p
+            cover = []
+            for c in keep_ins:
+                if c.bb in (pb.reach([rm0])):
+                    continue
+                if not re.search(elem + r'→BackupMetadata\.id$', flow.render(pf.of_operand(c.args[1]))):
+                    continue
+                guards = [q for i, tg, q in full_preds if c.bb not in pb.reach([0], avoid_edges=[(i, tg)])]
+                before_closure = bool(closure_src) and all(x.bb in pb.reach([c.bb]) and c.bb not in pb.reach([x.bb]) for x in closure_src)
+                if neg in guards and before_closure:
+                    cover.append(c)
+            short_p = re.sub(elem, 'backup', p)[:110]
+            ctx.inst('C12.R4', pb.short, 'survival condition #%d of the deletion loop also puts the backup into the keep set before the parent closure' % k_, bool(cover),
+                     'a backup survives deletion when ¬(%s); %s' % (short_p, 'inserted into to_keep under that condition before the closure' if cover else
+                                                                     'but it is not added to to_keep before the parent closure: it is retained while its parents can be pruned'))
+        ctx.floor('C12.R4', 'survival conditions of the deletion loop besides keep-set membership', len(set(must)), 1, 'min_age_days')
     # the closure runs before the deletion loop
     if parent_ins and rms:
         ctx.inst('C12.R4', pb.short, 'parents are added before anything is deleted', all(x not in pb.reach([min(rms)]) for x in [c.bb for c in parent_ins]),
